@@ -785,4 +785,144 @@ theorem expandRow_getD (d : Nat) (row : List (Nat × Rat)) (k : Nat) (hk : k < r
 example : (expandRow 5 [(1, 1/4), (3, 3/4)]).getD 3 0 = 3/4 :=
   expandRow_getD 5 [(1, 1/4), (3, 3/4)] 1 (by simp) (by simp) (by simp)
 
+/-! ## range safety does not depend on the arithmetic
+
+  The scans with the comparison `gt` and the subtraction `sub` left abstract: whatever they
+  compute (IEEE rounding of `p -= in[i]`, comparisons involving NaN, …) the dense scan and the
+  repaired sparse scan stay in range; the sparse scan as it is does not. -/
+
+def denseGoA (gt : Rat → Rat → Bool) (sub : Rat → Rat → Rat) : List Rat → Rat → Nat → Option Nat
+  | [], _, _ => none
+  | x :: xs, p, i => if gt x p then some i else denseGoA gt sub xs (sub p x) (i + 1)
+
+def sampleDenseA (gt : Rat → Rat → Bool) (sub : Rat → Rat → Rat) (l : List Rat) (u : Rat) : Nat :=
+  (denseGoA gt sub l u 0).getD (l.length - 1)
+
+def sparseGoFixedA (gt : Rat → Rat → Bool) (sub : Rat → Rat → Rat) :
+    List (Nat × Rat) → Rat → Nat → Nat
+  | [], _, last => last
+  | (c, v) :: r, p, _ => if gt v p then c else sparseGoFixedA gt sub r (sub p v) c
+
+def sparseGoA (gt : Rat → Rat → Bool) (sub : Rat → Rat → Rat) : List (Nat × Rat) → Rat → Option Nat
+  | [], _ => none
+  | (c, v) :: r, p => if gt v p then some c else sparseGoA gt sub r (sub p v)
+
+theorem denseGoA_range (gt : Rat → Rat → Bool) (sub : Rat → Rat → Rat) :
+    ∀ (l : List Rat) (p : Rat) (i0 j : Nat),
+      denseGoA gt sub l p i0 = some j → i0 ≤ j ∧ j < i0 + l.length
+  | [], _, _, _, h => by simp [denseGoA] at h
+  | x :: xs, p, i0, j, h => by
+    simp only [denseGoA] at h
+    split at h
+    · simp only [Option.some.injEq] at h; subst h; simp
+    · have := denseGoA_range gt sub xs (sub p x) (i0 + 1) j h
+      simp only [List.length_cons]; omega
+
+/-! ### A1. the dense scan returns an index of the row under any arithmetic -/
+
+theorem denseA_in_range (gt : Rat → Rat → Bool) (sub : Rat → Rat → Rat) (l : List Rat) (u : Rat)
+    (hne : l ≠ []) : sampleDenseA gt sub l u < l.length := by
+  have hlen : 0 < l.length := List.length_pos_of_ne_nil hne
+  unfold sampleDenseA
+  cases h : denseGoA gt sub l u 0 with
+  | none => simp only [Option.getD_none]; omega
+  | some j =>
+    have := (denseGoA_range gt sub l u 0 j h).2
+    simp only [Option.getD_some]; omega
+
+-- test: absurd arithmetic (every comparison false, every subtraction 0): fall-through to d-1
+example : sampleDenseA (fun _ _ => false) (fun _ _ => 0) [1/4, 1/2, 1/4] (1/10) = 2 := by
+  simp [sampleDenseA, denseGoA]
+example : sampleDenseA (fun _ _ => false) (fun _ _ => 0) [1/4, 1/2, 1/4] (1/10)
+    < [1/4, 1/2, (1/4 : Rat)].length :=
+  denseA_in_range _ _ _ _ (by simp)
+
+/-! ### A2. the exact instance is the model -/
+
+theorem denseGoA_exact : ∀ (l : List Rat) (p : Rat) (i : Nat),
+    denseGoA (fun a b => decide (a > b)) (fun a b => a - b) l p i = denseGo l p i
+  | [], _, _ => rfl
+  | x :: xs, p, i => by
+    simp only [denseGoA, denseGo, decide_eq_true_eq]
+    rw [denseGoA_exact xs (p - x) (i + 1)]
+
+theorem denseA_exact (l : List Rat) (u : Rat) :
+    sampleDenseA (fun a b => decide (a > b)) (fun a b => a - b) l u = sampleDense l u := by
+  unfold sampleDenseA sampleDense
+  rw [denseGoA_exact]
+
+-- test
+example : sampleDenseA (fun a b => decide (a > b)) (fun a b => a - b) [1/4, 1/2, 1/4] (1/2) = 1 := by
+  rw [denseA_exact]; norm_num [sampleDense, denseGo]
+
+/-! ### A3. the repaired sparse scan returns a stored column under any arithmetic -/
+
+theorem sparseGoFixedA_mem (gt : Rat → Rat → Bool) (sub : Rat → Rat → Rat) :
+    ∀ (row : List (Nat × Rat)) (p : Rat) (last : Nat),
+      sparseGoFixedA gt sub row p last ∈ last :: row.map (·.1)
+  | [], p, last => by simp [sparseGoFixedA]
+  | (c, v) :: r, p, last => by
+    simp only [sparseGoFixedA]
+    split
+    · simp
+    · have := sparseGoFixedA_mem gt sub r (sub p v) c
+      simp only [List.map_cons]
+      exact List.mem_cons_of_mem _ this
+
+theorem sparseFixedA_in_support (gt : Rat → Rat → Bool) (sub : Rat → Rat → Rat)
+    (row : List (Nat × Rat)) (u : Rat) (d : Nat) (hne : row ≠ []) :
+    sparseGoFixedA gt sub row u (d - 1) ∈ row.map (·.1) := by
+  match row, hne with
+  | [], h => exact absurd rfl h
+  | (c, v) :: r, _ =>
+    simp only [sparseGoFixedA]
+    split
+    · simp
+    · exact sparseGoFixedA_mem gt sub r (sub u v) c
+
+-- test: absurd arithmetic → last stored column
+example : sparseGoFixedA (fun _ _ => false) (fun _ _ => 0) [(3, 1/4), (7, 1/2)] (1/10) (10 - 1)
+    ∈ [((3 : Nat), (1/4 : Rat)), (7, 1/2)].map (·.1) :=
+  sparseFixedA_in_support _ _ _ _ _ (by simp)
+example : sparseGoFixedA (fun _ _ => false) (fun _ _ => 0) [(3, 1/4), (7, 1/2)] (1/10) 9 = 7 := by
+  simp [sparseGoFixedA]
+
+/-! ### A4. the exact instance is the model -/
+
+theorem sparseFixedA_exact : ∀ (row : List (Nat × Rat)) (u : Rat) (last : Nat),
+    sparseGoFixedA (fun a b => decide (a > b)) (fun a b => a - b) row u last
+      = sparseGoFixed row u last
+  | [], _, _ => rfl
+  | (c, v) :: r, u, last => by
+    simp only [sparseGoFixedA, sparseGoFixed, decide_eq_true_eq]
+    rw [sparseFixedA_exact r (u - v) c]
+
+-- test
+example : sparseGoFixedA (fun a b => decide (a > b)) (fun a b => a - b) [(3, 1/4), (7, 1/2)] (4/5) 9
+    = 7 := by
+  rw [sparseFixedA_exact]; norm_num [sparseGoFixed]
+
+/-! ### A5. the sparse scan as it is: the exact instance is the model, and when no comparison
+    succeeds (e.g. every comparison involves NaN) it walks off every row -/
+
+theorem sparseGoA_exact : ∀ (entries : List (Nat × Rat)) (u : Rat),
+    sparseGoA (fun a b => decide (a > b)) (fun a b => a - b) entries u = sparseGo entries u
+  | [], _ => rfl
+  | (c, v) :: r, u => by
+    simp only [sparseGoA, sparseGo, decide_eq_true_eq]
+    rw [sparseGoA_exact r (u - v)]
+
+theorem sparseA_none_of_all_false (gt : Rat → Rat → Bool) (sub : Rat → Rat → Rat) :
+    ∀ (entries : List (Nat × Rat)) (u : Rat), (∀ e ∈ entries, ∀ p, gt e.2 p = false) →
+      sparseGoA gt sub entries u = none
+  | [], _, _ => rfl
+  | (c, v) :: r, u, h => by
+    have hv : gt v u = false := h (c, v) (List.mem_cons_self ..) u
+    simp only [sparseGoA, hv]
+    exact sparseA_none_of_all_false gt sub r (sub u v) (fun e he => h e (List.mem_cons_of_mem _ he))
+
+-- test
+example : sparseGoA (fun _ _ => false) (fun a b => a - b) [(3, 1/4), (7, 3/4), (9, 1)] (1/2) = none :=
+  sparseA_none_of_all_false _ _ _ _ (by simp)
+
 end AITB.Sampling
